@@ -332,8 +332,98 @@ func c15R3(c *kit.Ctx, a *c15Anchors, r3 *kit.Rule) {
 				isParam = true
 			}
 		}
+		// the map is indexed in a helper through the helper's receiver or parameter:
+		// judge the object the replacer hands in
+		helperOwned := false
+		for _, h := range a.replHelpers {
+			if h.Node().Pos() <= r.M.Pos() && r.M.Pos() <= h.Node().End() {
+				var handed types.Object
+				okAll := true
+				for _, call := range f.AllCalls(false) {
+					if f.CalleeFunc(call) != h {
+						continue
+					}
+					var arg ast.Expr
+					if ro := c16RecvVar(h); ro == r.M {
+						if sel, ok := ast.Unparen(call.Fun).(*ast.SelectorExpr); ok {
+							arg = sel.X
+						}
+					} else {
+						for i, p := range h.Params() {
+							if p == r.M && i < len(call.Args) {
+								arg = call.Args[i]
+							}
+						}
+					}
+					o := kit.ObjOf(info, arg)
+					if arg == nil || o == nil || (handed != nil && handed != o) {
+						okAll = false
+					}
+					handed = o
+				}
+				if !okAll || handed == nil {
+					r.mapMsgs.undec("the map %s of %s is not visibly the same object at every call from %s", r.M.Name(), h.Name, f.Name)
+					helperOwned = true
+					break
+				}
+				helperOwned = true
+				// the object handed in must be the replacer's own receiver or parameter, passed on unchanged
+				recv := c16RecvVar(f)
+				isOwnParam := false
+				for _, p := range f.Params() {
+					if p == handed {
+						isOwnParam = true
+					}
+				}
+				switch {
+				case recv != nil && handed == recv:
+					for _, call := range f.AllCalls(false) {
+						if f.CalleeFunc(call) != f {
+							continue
+						}
+						if sel, ok := ast.Unparen(call.Fun).(*ast.SelectorExpr); !ok || kit.ObjOf(info, sel.X) != recv {
+							if _, fresh := ast.Unparen(sel.X).(*ast.CompositeLit); ok && fresh {
+								r.mapMsgs.viol("%s starts every child with a new, empty map: references between subtrees are replaced inconsistently", f.Str(call))
+							} else {
+								r.mapMsgs.undec("%s: the recursion does not visibly go through the same receiver (which is / holds the map)", f.Str(call))
+							}
+						}
+					}
+				case isOwnParam:
+					for _, call := range f.AllCalls(false) {
+						if f.CalleeFunc(call) != f {
+							continue
+						}
+						passed := false
+						for _, a2 := range call.Args {
+							if kit.ObjOf(info, a2) == handed {
+								passed = true
+							}
+						}
+						if !passed {
+							r.mapMsgs.undec("%s: the recursion does not visibly pass the same map on", f.Str(call))
+						}
+					}
+				case f.Node().Pos() <= handed.Pos() && handed.Pos() <= f.Node().End():
+					r.mapMsgs.viol("the map %s is created inside the recursive function: every node gets its own map and references between nodes are replaced inconsistently", handed.Name())
+				}
+				for _, g := range append([]*kit.Func{f}, a.replHelpers...) {
+					ast.Inspect(g.Body, func(x ast.Node) bool {
+						if as, ok := x.(*ast.AssignStmt); ok {
+							for _, l := range as.Lhs {
+								if o := kit.ObjOf(info, l); o != nil && (o == handed || o == r.M) {
+									r.mapMsgs.viol("%s replaces the map while ids are being translated", g.Str(as))
+								}
+							}
+						}
+						return true
+					})
+				}
+			}
+		}
 		mv, _ := r.M.(*types.Var)
 		switch {
+		case helperOwned:
 		case mv != nil && mv.IsField():
 			// a field of the receiver: one map when every recursive call goes through
 			// the same receiver and nothing assigns the field on the way
@@ -984,13 +1074,56 @@ func c15R4(c *kit.Ctx, a *c15Anchors, r4 *kit.Rule) {
 			nMark++
 			c.Analysed(g)
 			o := r4.Ob(g, as, "marker "+g.Str(as.Rhs[0]), "a string constant is appended to a point field only in the importer, on an element of Nodes[0].Points whose type is description")
+			viaHelper := false
 			if g != f {
 				if perNode[g] {
 					o.Violation("%s appends a marker to a point in %s, which the importer runs for every node of the tree", g.Str(as), g.Name)
-				} else {
-					o.Undecided("%s appends a marker to a point in %s: which nodes that function is applied to is not followed", g.Str(as), g.Name)
+					return true
 				}
-				return true
+				// a helper on a slice of points: which node's points is decided at its call sites
+				lp := c15IndexLoopOf(c, g, as)
+				var pp *types.Var
+				pi := -1
+				if lp != nil {
+					for i, p := range g.Params() {
+						if c15IsPointSlice(p.Type()) && kit.ObjOf(gi, lp.x) == p {
+							pp, pi = p, i
+						}
+					}
+				}
+				if pp == nil {
+					o.Undecided("%s appends a marker to a point in %s: which nodes that function is applied to is not followed", g.Str(as), g.Name)
+					return true
+				}
+				nCalls := 0
+				for _, h := range reach {
+					if h.Body == nil {
+						continue
+					}
+					for _, call := range h.AllCalls(false) {
+						if h.CalleeFunc(call) != g || pi >= len(call.Args) {
+							continue
+						}
+						nCalls++
+						switch {
+						case h == f && c15Field(info, call.Args[pi], "Points", isTop):
+						case perNode[h]:
+							o.Violation("%s marks the points it is given and is called for every node of the tree (%s in %s)", g.Name, h.Str(call), h.Name)
+							return true
+						case h == f && c15Field(info, call.Args[pi], "Points", func(ast.Expr) bool { return true }) && !isTopLike(call.Args[pi]):
+							o.Violation("%s marks the points of %s, which is not the first node of the imported document", g.Name, h.Str(call.Args[pi]))
+							return true
+						default:
+							o.Undecided("%s marks the points it is given; %s in %s is not visibly the first node's Points", g.Name, h.Str(call), h.Name)
+							return true
+						}
+					}
+				}
+				if nCalls == 0 {
+					o.Undecided("%s appends a marker to a point but no call of it is reachable from the importer", g.Name)
+					return true
+				}
+				viaHelper = true
 			}
 			if sel.Sel.Name != "Text" {
 				o.Violation("%s modifies the point's %s", g.Str(as), sel.Sel.Name)
@@ -1004,7 +1137,9 @@ func c15R4(c *kit.Ctx, a *c15Anchors, r4 *kit.Rule) {
 				o.Undecided("%s is not an element of the slice ranged over by the enclosing loop", g.Str(as))
 				return true
 			}
-			if !c15Field(gi, loop.x, "Points", isTop) {
+			if viaHelper {
+				// the slice is the helper's parameter, bound to Nodes[0].Points at every call
+			} else if !c15Field(gi, loop.x, "Points", isTop) {
 				if c15Field(gi, loop.x, "Points", func(ast.Expr) bool { return true }) && !isTopLike(loop.x) {
 					o.Violation("%s marks the points of %s, which is not the first node of the imported document", g.Str(as), g.Str(loop.x))
 				} else {
